@@ -307,7 +307,7 @@ def boolVal (b : Bool) : Val := .int (if b then 1 else 0)
 abbrev Reenter := Val → M Val
 
 def nativeNames : List String :=
-  ["__min", "__max", "__sort", "__to_array", "log", "sum2", "fail", "callback", "strlen", "three", "four", "mktable"]
+  ["__min", "__max", "__sort", "__to_array", "log", "sum2", "fail", "callback", "strlen", "three", "four", "mktable", "papply"]
 
 def isTable (h : Heap) (v : Val) : Option (List (Val × Val)) :=
   match v with
@@ -426,6 +426,13 @@ def callNativeBody (reenter : Reenter) (name : String) : M Val := do
     let r ← reenter f
     let h := (← get).heap
     modify fun s => { s with hostLog := s.hostLog ++ ["callback -> " ++ (ownD h r).toTok] }
+    return r
+  | "papply" => do
+    -- a plain host function: pops its own argument (a function value) and calls it
+    let f ← pop
+    let r ← reenter f
+    let h := (← get).heap
+    modify fun s => { s with hostLog := s.hostLog ++ ["papply -> " ++ (ownD h r).toTok] }
     return r
   | "strlen" => do
     let v ← peek 0
